@@ -107,6 +107,7 @@ class Flattener:
         st = _State(self, src)
         st.run()
         if self.thread:
+            st.late_predicates()
             st.thread()
         self._cache[path] = st.fn
         return st.fn
@@ -157,6 +158,26 @@ class _State:
             if t["k"] == "call" and t["dest"]["l"] == local and not t["dest"]["p"]:
                 return None
         return found
+
+    def _holds_literals(self, local, depth=0):
+        """The local is assigned enum literals (directly or through whole moves / payload projections of literals) on at
+        least two paths."""
+        n = 0
+        for b in self.blocks:
+            for st in b["stmts"]:
+                if st["k"] == "assign" and st["lhs"]["l"] == local and not st["lhs"]["p"]:
+                    rv = st["rv"]
+                    if rv["k"] == "agg" and rv.get("what") == "adt" and "vi" in rv:
+                        n += 1
+                    elif rv["k"] == "use" and rv["op"].get("k") in ("move", "copy") and depth < 5:
+                        if self._holds_literals(rv["op"]["pl"]["l"], depth + 1):
+                            n += 2
+                    else:
+                        return False
+            t = b["term"]
+            if t["k"] == "call" and t["dest"]["l"] == local:
+                return False
+        return n >= 2
 
     def closure_of(self, op):
         """(closure def path, capture operands) for an operand holding a closure value (possibly through moves / a
@@ -372,6 +393,20 @@ class _State:
                 continue
             self._inline_sync(i, b, t, callee, depth, stack)
 
+    def late_predicates(self):
+        """Second phase, once every combinator has been expanded: `is_some()` / `is_none()` / `is_ok()` / `is_err()` on a
+        local that now holds enum literals on its incoming paths."""
+        self._late = True
+        for i in range(len(self.blocks)):
+            b = self.blocks[i]
+            t = b["term"]
+            if b["cleanup"] or t["k"] != "call" or t.get("t") is None or not t.get("callee"):
+                continue
+            c = t["callee"]
+            if c.get("krate") in ("core", "std", "alloc") and re.search(r"::is_(some|none|ok|err)$", c["def"]):
+                depth, stack = self.meta[i]
+                self._expand(i, b, t, c, depth, stack)
+
     def _is_async_shell(self, f):
         n = 0
         for b in f["blocks"]:
@@ -487,6 +522,8 @@ class _State:
     # ------------------------------------------------------------------------------------ std combinators
     def _expand(self, i, b, t, c, depth, stack):
         name = c["def"]
+        if re.match(r"std::task::Poll::<[^>]*>::map$", name):
+            return self._expand_poll_map(i, b, t, c, depth, stack)
         if name == "std::ops::Try::branch" and self.fl.thread:
             return self._expand_try_branch(i, b, t, c)
         if name == "std::ops::FromResidual::from_residual" and self.fl.thread:
@@ -555,11 +592,17 @@ class _State:
             return nb
 
         # ---- closure-free combinators
-        if False and meth in ("is_some", "is_ok", "is_none", "is_err") and len(ops) == 1:
-            # deliberately not expanded: cond.Cond already normalises these predicate calls, and expanding them would
-            # turn a one-block test into a flag assigned on two branches
-            # receiver is a reference: test the referent
-            x = {"l": x["l"], "p": list(x["p"]) + ["deref"]}
+        if meth in ("is_some", "is_ok", "is_none", "is_err") and len(ops) == 1 and self.fl.thread and getattr(self, "_late", False):
+            # only when the tested value is a local that was just given an enum literal on several incoming paths (the
+            # shape an expanded map / filter / ok_or leaves): the test is then decided per path by jump threading.
+            # A test of a field or of a call result stays a call (cond.Cond normalises those).
+            ref_def = self.single_def(x["l"]) if not x["p"] else None
+            if ref_def is None or ref_def["rv"]["k"] != "ref" or ref_def["rv"]["pl"]["p"]:
+                return False
+            tested = ref_def["rv"]["pl"]["l"]
+            if not self._holds_literals(tested):
+                return False
+            x = {"l": tested, "p": []}
             truth_pos = meth in ("is_some", "is_ok")
             bp = blk([_assign(copy.deepcopy(dest), _use({"k": "const", "ty": "bool", "val": truth_pos, "uneval": None, "fn": None}), line)])
             bn = blk([_assign(copy.deepcopy(dest), _use({"k": "const", "ty": "bool", "val": not truth_pos, "uneval": None, "fn": None}), line)])
@@ -666,6 +709,33 @@ class _State:
             return True
         return False
 
+    def _expand_poll_map(self, i, b, t, c, depth, stack):
+        """`poll.map(f)`: Ready(v) => Ready(f(v)), Pending => Pending."""
+        ops = t["ops"]
+        line = t.get("line", 0)
+        if len(ops) != 2 or ops[0].get("k") not in ("move", "copy"):
+            return False
+        cl = self.closure_of(ops[1])
+        if cl is None:
+            return False
+        f = self.facts.fn(cl[0])
+        if f is None or f["kind"] != "closure" or cl[0] in stack:
+            return False
+        x = ops[0]["pl"]
+        POLL = "std::task::Poll"
+        dest, target = t["dest"], t["t"]
+        tmp = self.new_local("?mapped")
+        fin = self.new_block([_assign(copy.deepcopy(dest), _adt(POLL, "Ready", 0, [_mv(tmp)]), line)], _goto(target, line), i)
+        ready = self.new_block([], _goto(fin, line), i)
+        pay = {"k": "move", "pl": {"l": x["l"], "p": list(x["p"]) + [{"dc": "Ready", "vi": 0}, {"f": 0, "n": "0", "adt": POLL, "ty": payload_ty(c.get("self_ty") or "", "Some")}]}}
+        self._splice_closure(ready, self.blocks[ready], f, cl[1], [pay], _pl(tmp), fin, depth, stack, line)
+        pend = self.new_block([_assign(copy.deepcopy(dest), _adt(POLL, "Pending", 1, []), line)], _goto(target, line), i)
+        d = self.new_local("isize")
+        dead = self.new_block([], {"k": "unreachable", "line": line, "exp": False}, i)
+        b["stmts"] = b["stmts"] + [_assign(_pl(d), {"k": "discr", "pl": copy.deepcopy(x), "adt": POLL}, line)]
+        b["term"] = {"k": "switch", "op": _mv(d), "ty": "isize", "targets": [[0, ready], [1, pend]], "otherwise": dead, "line": line, "exp": False, "expanded": "Poll::map"}
+        return True
+
     def _expand_try_branch(self, i, b, t, c):
         """`x?`: Try::branch on a Result / Option is the match `Ok(v) => Continue(v), Err(e) => Break(Err(e))`."""
         res = c.get("resolved") or ""
@@ -760,43 +830,50 @@ class _State:
                     continue
                 dl = t["op"]["pl"]["l"]
                 dst = [st for st in b["stmts"] if st["k"] == "assign" and st["lhs"]["l"] == dl and not st["lhs"]["p"]]
-                if len(dst) != 1 or dst[0]["rv"]["k"] != "discr" or dst[0]["rv"]["pl"]["p"]:
+                if len(dst) == 1 and dst[0]["rv"]["k"] == "discr" and not dst[0]["rv"]["pl"]["p"]:
+                    X = dst[0]["rv"]["pl"]["l"]
+                elif not dst and t.get("ty") == "bool":
+                    # a flag: `x = const true` here, `x = const false` there, merge, `if x`
+                    X = dl
+                    dst = [None]
+                else:
                     continue
-                X = dst[0]["rv"]["pl"]["l"]
-                # chain of single-successor, call-free blocks from a merge point down to S
-                chain = [S]
-                cur = S
-                nst = len(b["stmts"])
-                while True:
-                    ps = preds.get(cur, [])
-                    if len(ps) != 1:
-                        break
-                    pb = self.blocks[ps[0]]
-                    if pb["term"]["k"] not in ("goto", "drop", "falseedge") or ps[0] in chain or len(chain) > 40:
-                        break
-                    nst += len(pb["stmts"])
-                    cur = ps[0]
-                    chain.insert(0, cur)
-                if nst > 60:
+                # Backward search from S for the places where the deciding value becomes known. Each hit is a block P
+                # whose own statements fix the variant, together with the (call-free, single-successor) blocks between
+                # P and S; that stretch is tail-duplicated for P and ends in a jump to the arm the variant selects.
+                # Merges on the way (several helper returns feeding one continuation) are followed into every predecessor.
+                s_stmts = b["stmts"] if dst[0] is None else b["stmts"][:b["stmts"].index(dst[0])]
+                hits = []
+                budget = [300]
+
+                def explore(blk, state, below):
+                    budget[0] -= 1
+                    if budget[0] < 0 or len(below) > 40:
+                        return
+                    stmts_ = s_stmts if blk == S else self.blocks[blk]["stmts"]
+                    if blk != S:
+                        tt = self.blocks[blk]["term"]
+                        if tt["k"] == "call" and tt["dest"]["l"] == state[0]:
+                            return
+                    r = self._track_back(stmts_, state)
+                    if r is None:
+                        return
+                    if isinstance(r, int):
+                        if blk != S:
+                            hits.append((blk, r, list(below)))
+                        return
+                    for q in preds.get(blk, []):
+                        if q == S or q in below:
+                            continue
+                        qt = self.blocks[q]["term"]
+                        if qt["k"] not in ("goto", "drop", "falseedge"):
+                            continue
+                        explore(q, r, [blk] + below)
+                explore(S, (X, ()), [])
+                if not hits:
                     continue
-                head = chain[0]
-                # which value decides the switch when the chain is entered: follow `X = move Y`, `X = move (R as V).i`
-                # and literals inside the chain
-                state = (X, ())
-                for c in reversed(chain):
-                    cb = self.blocks[c]
-                    stmts_ = cb["stmts"] if c != S else cb["stmts"][:cb["stmts"].index(dst[0])]
-                    state = self._track_back(stmts_, state)
-                    if state is None or isinstance(state, int):
-                        break
-                if state is None or isinstance(state, int):
-                    continue        # undecidable, or decided inside the chain itself (nothing to thread from predecessors)
-                X_in = state
-                for P in list(preds.get(head, [])):
-                    if P in chain:
-                        continue
-                    vi = self._variant_at_end(P, X_in, preds)
-                    if vi is None:
+                for (P, vi, path_) in hits:
+                    if sum(len(self.blocks[c]["stmts"]) for c in path_) > 80:
                         continue
                     tgt = None
                     for v, bb in t["targets"]:
@@ -804,9 +881,8 @@ class _State:
                             tgt = bb
                     if tgt is None:
                         tgt = t["otherwise"]
-                    # clone the chain for this predecessor
                     new_ids = []
-                    for c in chain:
+                    for c in path_:
                         nb = copy.deepcopy(self.blocks[c])
                         self.blocks.append(nb)
                         self.meta.append(self.meta[c])
@@ -818,7 +894,7 @@ class _State:
                         else:
                             self.blocks[nid]["term"] = _goto(tgt, nt.get("line", 0))
                             self.blocks[nid]["term"]["threaded"] = vi
-                    self._retarget(self.blocks[P]["term"], head, new_ids[0])
+                    self._retarget(self.blocks[P]["term"], path_[0], new_ids[0])
                     changed = True
                 if changed:
                     break
@@ -872,6 +948,8 @@ class _State:
                     path = ((pr[0]["dc"], pr[1]["f"]),) + path
                     continue
                 return None
+            if rv["k"] == "use" and rv["op"].get("k") == "const" and not path and isinstance(rv["op"].get("val"), bool):
+                return int(rv["op"]["val"])
             if rv["k"] == "agg" and rv.get("what") == "adt" and "vi" in rv:
                 if not path:
                     return rv["vi"]
